@@ -201,7 +201,8 @@ def _shard(item: tuple) -> dict:
                 continue
             if "error" in base:
                 continue
-            bfp = base["fp"] if wf else {a: b for a, b in base["fp"].items() if a.startswith("eq:")}
+            bfp = base["fp"] if wf else {a: b for a, b in base["fp"].items() if not a.startswith(
+                "fn:")}
             diffs = fingerprint.compare(bfp, got["fp"])
             if diffs:
                 res["outcomes"]["differs"] = res["outcomes"].get("differs", 0) + 1
@@ -265,7 +266,7 @@ def _catalogue_item(order: str) -> dict:
             continue
         if "error" in base:
             continue
-        diffs = fingerprint.compare({a: b for a, b in base["fp"].items() if a.startswith("eq:")},
+        diffs = fingerprint.compare({a: b for a, b in base["fp"].items() if not a.startswith("fn:")},
             r["fp"])
         if diffs:
             res["violations"].append((f"{m}:meaning", f"whole-catalogue import ({order}) changes the "
@@ -425,7 +426,7 @@ def replay(case: dict) -> list[str]:
         return [f"{m}: import fails: {got['error']}"]
     if "error" in b:
         return [f"{m}: import fails in the default history: {b['error']}"]
-    bfp = b["fp"] if case.get("functions") else {a: x for a, x in b["fp"].items() if
-        a.startswith("eq:")}
+    bfp = b["fp"] if case.get("functions") else {a: x for a, x in b["fp"].items() if not
+        a.startswith("fn:")}
     diffs = fingerprint.compare(bfp, got["fp"])
     return [f"{m}: {'; '.join(diffs)[:400]}"] if diffs else []
